@@ -123,3 +123,37 @@ Proof.
     unfold on_eof at 1. cbn [r_first r_now r_out]. destruct (N.eqb_spec tol 0); [lia|].
     destruct (N.ltb_spec tol (r_now s + wait + tol + tol - r_now s)); [eexists; eexists; split; reflexivity|lia].
 Qed.
+
+(* single interruptions only: between two data steps at most one end-of-file / timeout result *)
+Inductive gentle1 : list rstep -> Prop :=
+| g1_nil : gentle1 []
+| g1_data bs rest : gentle1 rest -> gentle1 (RData bs :: rest)
+| g1_one e bs rest : (e = REof \/ e = RTimeout) -> bs <> [] -> gentle1 rest -> gentle1 (e :: RData bs :: rest).
+
+(* ... never stop the loop, however long the configured wait is compared with the tolerance: the retry
+   after the first failed read finds data, and data resets the clock *)
+Lemma gentle1_resumes tol wait : 0 < tol -> forall script, gentle1 script ->
+  forall s, r_first s = None ->
+  exists s', run_script tol wait script s = (s', StopNone, []) /\ r_out s' = r_out s ++ data_of script /\
+             r_first s' = None.
+Proof.
+  intros Htol script G. induction G as [|bs rest G IH|e bs rest He Hbs G IH]; intros s Hf.
+  - exists s. cbn. rewrite app_nil_r. repeat split; assumption.
+  - cbn [run_script data_of].
+    destruct (IH {| r_first := match bs with [] => r_first s | _ => None end; r_now := r_now s; r_out := r_out s ++ bs |})
+      as (s' & R & O & F).
+    { cbn. destruct bs; [exact Hf|reflexivity]. }
+    exists s'. split; [exact R|]. split; [rewrite O; cbn; rewrite <- app_assoc; reflexivity|exact F].
+  - assert (E : on_eof tol wait s = Some {| r_first := Some (r_now s); r_now := r_now s + wait; r_out := r_out s |}).
+    { unfold on_eof. destruct (N.eqb_spec tol 0); [lia|]. rewrite Hf. reflexivity. }
+    assert (R1 : forall k, run_script tol wait (e :: k) s =
+                 run_script tol wait k {| r_first := Some (r_now s); r_now := r_now s + wait; r_out := r_out s |}).
+    { intros k. destruct He as [-> | ->]; cbn [run_script]; rewrite E; reflexivity. }
+    rewrite R1. cbn [run_script data_of].
+    destruct (IH {| r_first := match bs with [] => Some (r_now s) | _ => None end; r_now := r_now s + wait; r_out := r_out s ++ bs |})
+      as (s' & R & O & F).
+    { cbn. destruct bs; [congruence|reflexivity]. }
+    exists s'. split; [exact R|]. split; [|exact F].
+    rewrite O. cbn [r_out].
+    destruct He as [-> | ->]; cbn [data_of app]; rewrite <- app_assoc; reflexivity.
+Qed.
